@@ -4,4 +4,5 @@ mod nopanic;
 mod roundtrip;
 mod arr;
 mod value_laws;
-mod strprobe;
+#[cfg(feature = "gvariant")]
+mod gv_leaf;
